@@ -3,8 +3,8 @@
 (* terminal and acting identity are printed with it.                                                          *)
 EXTENDS Pipeline, Json
 
-VARIABLES host, authn, id, imp, impOther, authz, rule, flow, ep, denyItem, conf
-vars == <<host, authn, id, imp, impOther, authz, rule, flow, ep, denyItem, conf>>
+VARIABLES host, authn, id, imp, impOther, authz, rule, flow, ep, denyItem, conf, sar
+vars == <<host, authn, id, imp, impOther, authz, rule, flow, ep, denyItem, conf, sar>>
 
 Ids == {[user |-> "alice", groups |-> <<"g1", Authn>>, extras |-> <<>>],
         [user |-> "system:serviceaccount:ns1:sa1", groups |-> <<"system:serviceaccounts", "system:serviceaccounts:ns1", Authn>>, extras |-> <<>>],
@@ -24,7 +24,7 @@ IdInit == /\ host \in {"known", "alias"} /\ authn = "ok" /\ id \in Ids /\ imp \i
           /\ authz \in [{"users", "groups", "serviceaccounts", "userextras"} -> Answers]
           /\ (\A it \in DOMAIN authz : it \notin ItemsOf([imp |-> imp]) => authz[it] = "allow")     \* answers for items that are not requested do not matter
           /\ Cardinality({it \in DOMAIN authz : authz[it] # "allow"}) <= 1
-          /\ rule = "match" /\ flow = "free" /\ ep = "ready" /\ denyItem = NoItem /\ conf = FALSE
+          /\ rule = "match" /\ flow = "free" /\ ep = "ready" /\ denyItem = NoItem /\ conf = FALSE /\ sar = FALSE
 \* confusable part (C02): identities with the SAME user name whose groups / extras are different lists that coincide under a lossy rendering
 \* (joined with a blank or a comma, printed as a list, keys and values swapped, a key containing the separator).  The driver sends them
 \* through ONE gateway one after the other, in both orders: whatever the gateway remembers of one request must not leak into the next
@@ -37,7 +37,19 @@ ConfInit == /\ host = "known" /\ authn = "ok" /\ impOther = {} /\ conf = TRUE
             /\ \/ id \in ConfIds /\ imp = NoImp
                \/ id = [user |-> "alice", groups |-> <<"g1", Authn>>, extras |-> <<>>] /\ imp \in ConfImps
             /\ authz = [x \in {"users", "groups", "serviceaccounts", "userextras"} |-> "allow"]
-            /\ rule = "match" /\ flow = "free" /\ ep = "ready" /\ denyItem = NoItem
+            /\ rule = "match" /\ flow = "free" /\ ep = "ready" /\ denyItem = NoItem /\ sar = FALSE
+\* sibling part (C02, "only when the target cluster's authorizer allowed every requested impersonation"): requests of ONE user through ONE
+\* gateway whose single requested item differs from a DENIED item in exactly one coordinate of the access review (the extra's key, the extra's
+\* value, the group, the user).  The driver uses the gateway's REAL SubjectAccessReview authorizer (with its decision cache) against a cluster
+\* that denies exactly SarDenied: an allowed sibling asked first must not answer for the denied one
+SarDenied == {[res |-> "userextras", name |-> "v", sub |-> "k2"], [res |-> "userextras", name |-> "w", sub |-> "k1"], [res |-> "groups", name |-> "g9", sub |-> ""]}
+SarImps == {[user |-> "bob", kind |-> "user", ns |-> "", groups |-> <<>>, extras |-> << <<k, val>> >>] : k \in {"k1", "k2"}, val \in {"v", "w"}}
+           \cup {[user |-> "bob", kind |-> "user", ns |-> "", groups |-> <<g>>, extras |-> <<>>] : g \in {"g8", "g9"}}
+SarInit == /\ host = "known" /\ authn = "ok" /\ impOther = {} /\ conf = FALSE /\ sar = TRUE
+           /\ id = [user |-> "alice", groups |-> <<"g1", Authn>>, extras |-> <<>>] /\ imp \in SarImps
+           /\ authz = [x \in {"users", "groups", "serviceaccounts", "userextras"} |-> "allow"]
+           /\ denyItem = (IF ItemsOfImp(imp) \cap SarDenied # {} THEN LET it == CHOOSE x \in ItemsOfImp(imp) \cap SarDenied : TRUE IN [res |-> it.res, name |-> it.name, sub |-> it.sub, ans |-> "deny"] ELSE NoItem)
+           /\ rule = "match" /\ flow = "free" /\ ep = "ready"
 \* item part (C02): several items of one class (same value under different keys, same key with different values, several groups);
 \* every class is allowed, exactly ONE item is denied / errors - or none
 GroupSeqs2 == {<<>>, <<"g9", "g8">>}
@@ -48,18 +60,18 @@ ImpsMulti == {[user |-> k.user, kind |-> k.kind, ns |-> k.ns, groups |-> g, extr
 ItemInit == /\ host = "known" /\ authn = "ok" /\ id = [user |-> "alice", groups |-> <<"g1", Authn>>, extras |-> <<>>] /\ imp \in ImpsMulti /\ impOther = {}
             /\ authz = [x \in {"users", "groups", "serviceaccounts", "userextras"} |-> "allow"]
             /\ denyItem \in {NoItem} \cup {[res |-> it.res, name |-> it.name, sub |-> it.sub, ans |-> a] : it \in ItemsOfImp(imp), a \in {"deny", "error"}}
-            /\ rule = "match" /\ flow = "free" /\ ep = "ready" /\ conf = FALSE
+            /\ rule = "match" /\ flow = "free" /\ ep = "ready" /\ conf = FALSE /\ sar = FALSE
 \* outcome part (C04): every stage combination, two impersonation shapes
 OutInit == /\ host \in {"known", "alias", "unknown", "denyall"} /\ authn \in {"ok", "bad"} /\ id = [user |-> "alice", groups |-> <<"g1", Authn>>, extras |-> <<>>]
            /\ imp \in {NoImp, [user |-> "bob", kind |-> "user", ns |-> "", groups |-> <<>>, extras |-> <<>>], [NoImp EXCEPT !.groups = <<"g9">>]}
            /\ impOther = {} /\ authz \in {[x \in {"users", "groups", "serviceaccounts", "userextras"} |-> a] : a \in {"allow", "deny"}}
            /\ rule \in {"match", "nomatch"} /\ flow \in {"free", "full", "fullevents"} /\ ep \in {"ready", "none"}
            /\ (flow # "free" => ep = "ready")         \* (a slot cannot be kept occupied on a cluster without a ready endpoint)
-           /\ denyItem = NoItem /\ conf = FALSE
-Init == IdInit \/ OutInit \/ ItemInit \/ ConfInit
+           /\ denyItem = NoItem /\ conf = FALSE /\ sar = FALSE
+Init == IdInit \/ OutInit \/ ItemInit \/ ConfInit \/ SarInit
 Next == UNCHANGED vars
 C == [host |-> host, authn |-> authn, id |-> id, imp |-> imp, impOther |-> impOther, authz |-> authz, rule |-> rule, flow |-> flow, ep |-> ep, denyItem |-> denyItem]
-Emit == PrintT(<<"CASE", ToJson([c |-> C, outcome |-> Outcome(C), acting |-> Acting(C), conf |-> conf])>>)
+Emit == PrintT(<<"CASE", ToJson([c |-> C, outcome |-> Outcome(C), acting |-> Acting(C), conf |-> conf, sar |-> sar])>>)
 \* sanity: exactly one terminal; a forwarded impersonation was fully allowed; the acting identity is one of the two
 Sane == /\ Outcome(C).t \in {"term", "fwd"}
         /\ (Outcome(C).t = "fwd" /\ Requested(C)) => AllAllowed(C)
